@@ -9,11 +9,12 @@ parallel  One generated survey (2-3 sources x 2-3 frequencies, 1-3 receivers,
           gradient = forward + back-propagation, jvec).  While the simulation
           under test runs, `emg3d._multiprocessing.solve` is replaced in the
           parent by a wrapper with the same module/qualname; the forked
-          workers therefore execute the wrapper, which calls the real
-          function, holds the result back until the task's target time from a
-          drawn delay table (a permutation of equally spaced delays <= 0.3 s
-          after a 0.15 s head start, keyed by a fingerprint of the task
-          input) and appends (pid, task) to a log file.
+          workers therefore execute the wrapper, which logs the start of the
+          task, calls the real function, holds the result back until it is
+          the task's turn in a drawn completion order (a permutation; a task
+          waits until no lower-ranked task is in flight and all lower-ranked
+          tasks are done or cannot start because all workers are occupied;
+          bounded by 1.5 s) and logs (pid, task) on completion.
 
           Oracle: every slot of get_efield / data.synthetic / back-propagated
           field / jvec, the misfit and the gradient are bit-identical
@@ -50,20 +51,22 @@ RULE = ("Survey: 2-3 sources (electric point / finite dipole / magnetic "
         "setting: max_workers 1..16, in-memory / file_dir, tqdm present "
         "(bar on/off) / absent, operation compute(+repeat) / gradient / "
         "jvec; stratified over operation x file mode (plus a few "
-        "max_workers=1 cases).  Delay table: a permutation (reversed / "
-        "rotated / interleaved / random) of equally spaced completion times "
-        "<= 0.45 s after submission, enforced inside the forked workers.  "
+        "max_workers=1 cases).  Completion order: a drawn permutation "
+        "(reversed / rotated / interleaved / random) enforced inside the "
+        "forked workers by holding finished tasks back until their turn "
+        "(exactly the drawn order if max_workers >= tasks, else the closest "
+        "order the pool can produce; every hold is bounded by 1.5 s).  "
         "Non-trivial = in the phase that belongs to the operation (forward / "
         "back-propagation / jvec) the logged completion order differs from "
         "the submission order and >= 2 worker pids took part; distinct by "
-        "(setting, survey shape, observed completion order).  A sleep that "
+        "(setting, survey shape, observed completion order).  A hold that "
         "fails to force an order only lowers distinct_nontrivial.")
 ASSUMPTIONS = [
     "workers are forked (Python 3.12, Linux): a module attribute replaced in "
     "the parent before the pool is created is what the workers execute; the "
-    "wrapper only calls the real emg3d._multiprocessing.solve, sleeps "
-    "until the task's target time (monotonic clock, used for scheduling "
-    "only) and appends a line to a log file",
+    "wrapper only calls the real emg3d._multiprocessing.solve, waits for "
+    "its turn by polling the log file (monotonic clock used for the 1.5 s "
+    "bound only) and appends start/end lines to the log file",
     "task identification: Simulation._data_or_file of the instance under "
     "test is wrapped (observation only) to learn which input belongs to "
     "which (what, source, frequency); inputs are not modified",
@@ -77,16 +80,21 @@ ASSUMPTIONS = [
 SHARDS = {'quick': 1, 'thorough': 4}
 
 TMPBASE = os.path.join(VERIF, '.cache', 'tmp')
-SPAN_SEQ = 0.02          # total sleep budget scale when max_workers == 1
-BASE = 0.15              # head start for worker start-up + first solve
 
 SRC_TYPES = ['TxElectricPoint', 'TxElectricDipole', 'TxMagneticPoint']
 REC_TYPES = ['RxElectricPoint', 'RxMagneticPoint']
 
 
 # ---------------------------------------------------------------- wrapper
-# State inherited by forked workers.  table: fingerprint -> (key, delay).
-_STATE = {'table': {}, 'log': None, 'real': None, 't0': None}
+# State inherited by forked workers.
+#   table:   fingerprint of a task input -> (key, wanted completion rank)
+#   ranks:   key -> rank for all tasks of the current phase
+#   phase:   counter of process_map calls of the simulation under test
+#   workers: max_workers of the simulation under test
+_STATE = {'table': {}, 'ranks': {}, 'phase': 0, 'workers': 1, 'log': None,
+          'real': None}
+HOLD_MAX = 1.5     # s; a task is never held back longer than this
+POLL = 0.003
 
 
 def _fingerprint(inp):
@@ -102,26 +110,67 @@ def _fingerprint(inp):
                           float(inp['frequency'])))
 
 
-def _delayed_solve(inp):
-    """Stand-in for emg3d._multiprocessing.solve (call, hold back, log)."""
+def _append(path, text):
+    fd = os.open(path, os.O_WRONLY | os.O_APPEND | os.O_CREAT)
     try:
-        key, delay = _STATE['table'].get(_fingerprint(inp), ('?', 0.0))
+        os.write(fd, text.encode())
+    finally:
+        os.close(fd)
+
+
+def _read_phase(path, phase):
+    """-> (started, done): lists of (pid, key) of one phase, in log order."""
+    started, done = [], []
+    with open(path) as f:
+        for ln in f.read().splitlines():
+            p = ln.split()
+            if len(p) == 4 and p[2] == str(phase):
+                (started if p[0] == 'S' else done).append((p[1], p[3]))
+    return started, done
+
+
+def _hold(key, rank):
+    """Hold a finished task back until it is its turn to complete.
+
+    Its turn: no task with a lower wanted rank is in flight (started, not
+    done), and every lower-ranked task is done - or cannot start anyway
+    because all workers are occupied.  The lowest-ranked task in flight can
+    therefore always complete (no deadlock); HOLD_MAX bounds the wait in any
+    case.  The clock only bounds the wait, it decides nothing."""
+    ranks, nwork = _STATE['ranks'], _STATE['workers']
+    deadline = time.monotonic() + HOLD_MAX
+    while time.monotonic() < deadline:
+        started, done = _read_phase(_STATE['log'], _STATE['phase'])
+        done = {k for _, k in done}
+        inflight = {k for _, k in started} - done
+        if not any(ranks.get(k, rank) < rank for k in inflight):
+            waiting = [k for k, r in ranks.items()
+                       if r is not None and r < rank and k not in done]
+            if not waiting or len(inflight) >= nwork:
+                return
+        time.sleep(POLL)
+
+
+def _delayed_solve(inp):
+    """Stand-in for emg3d._multiprocessing.solve: log the start, call the
+    real function, hold the result back until its turn, log the end."""
+    try:
+        key, rank = _STATE['table'].get(_fingerprint(inp), ('?', None))
     except Exception:    # never let the instrumentation change the outcome
-        key, delay = '?', 0.0
-    out = _STATE['real'](inp)
-    # Hold the result back until its target time (relative to the moment the
-    # parent finished preparing the task inputs; CLOCK_MONOTONIC is shared
-    # by the forked workers).  The clock only schedules, it decides nothing.
-    if delay > 0 and _STATE['t0'] is not None:
-        wait = _STATE['t0'] + delay - time.monotonic()
-        if wait > 0:
-            time.sleep(min(wait, 1.0))
-    if _STATE['log']:
-        fd = os.open(_STATE['log'], os.O_WRONLY | os.O_APPEND | os.O_CREAT)
-        try:
-            os.write(fd, f"{os.getpid()} {key}\n".encode())
-        finally:
-            os.close(fd)
+        key, rank = '?', None
+    log, phase, pid = _STATE['log'], _STATE['phase'], os.getpid()
+    if log:
+        _append(log, f"S {pid} {phase} {key}\n")
+    try:
+        out = _STATE['real'](inp)
+        if log and rank is not None:
+            try:
+                _hold(key, rank)
+            except Exception:
+                pass
+    finally:
+        if log:
+            _append(log, f"D {pid} {phase} {key}\n")
     return out
 
 
@@ -130,28 +179,23 @@ _delayed_solve.__qualname__ = 'solve'
 _delayed_solve.__name__ = 'solve'
 
 
-def _instrument(sim, delays):
-    """Wrap sim._data_or_file (observation only): register fingerprints."""
+def _instrument(sim, ranks):
+    """Wrap sim._data_or_file (observation only): register which input
+    belongs to which task, with the wanted completion rank."""
     orig = sim._data_or_file
 
     def data_or_file(what, source, frequency, data):
         out = orig(what, source, frequency, data)
         try:
-            _STATE['table'][_fingerprint(out)] = (
-                f"{what}|{source}|{frequency}",
-                float(delays.get((source, frequency), 0.0)))
-            _STATE['t0'] = time.monotonic()
+            key = f"{what}|{source}|{frequency}"
+            rank = ranks.get((source, frequency))
+            _STATE['table'][_fingerprint(out)] = (key, rank)
+            _STATE['ranks'][key] = rank
         except Exception:
             pass
         return out
 
     sim._data_or_file = data_or_file
-
-
-def _read_log(path, skip):
-    with open(path) as f:
-        lines = [ln.split() for ln in f.read().splitlines() if ln.strip()]
-    return lines[skip:], len(lines)
 
 
 # -------------------------------------------------------------- strategy
@@ -217,7 +261,6 @@ def spec_strategy(op, file_mode, salt, tqdm_first=False, sequential=False):
                                        'random']),
         'rot': st.integers(0, 7),
         'perm': st.permutations(list(range(9))),
-        'span': _pick('span', salt, [0.2, 0.15, 0.3]),
     })
 
 
@@ -512,10 +555,7 @@ def _case(spec, rec, emg3d, _mp, tmpd):
 
     # ---------------- simulation under test ------------------------------
     ranks = _ranks(spec['order'], n, spec['rot'], spec['perm'])
-    span = spec['span'] if spec['workers'] > 1 else SPAN_SEQ
-    step = span/(n-1)
-    base = BASE if spec['workers'] > 1 else 0.0
-    delays = {names[t]: base + ranks[k]*step for k, t in enumerate(tasks)}
+    want = {names[t]: int(ranks[k]) for k, t in enumerate(tasks)}
     kw = {}
     fh = None
     if spec['file']:
@@ -528,11 +568,12 @@ def _case(spec, rec, emg3d, _mp, tmpd):
     log = os.path.join(tmpd, 'order.log')
     open(log, 'w').close()
     phases = {}
-    state = {'skip': 0}
 
     def hook(phase):
-        lines, state['skip'] = _read_log(log, state['skip'])
+        _, lines = _read_phase(log, _STATE['phase'])
         phases[phase] = lines
+        _STATE['phase'] += 1
+        _STATE['ranks'] = {}
         if not lines:
             raise HarnessError(
                 f"C11: no task of phase '{phase}' went through the delay "
@@ -540,14 +581,15 @@ def _case(spec, rec, emg3d, _mp, tmpd):
                 "call emg3d._multiprocessing.solve any more)")
 
     real_solve, real_tqdm = _mp.solve, _mp.tqdm
-    _STATE.update(table={}, log=log, real=real_solve, t0=None)
+    _STATE.update(table={}, ranks={}, phase=0, workers=spec['workers'],
+                  log=log, real=real_solve)
     try:
         _mp.solve = _delayed_solve
         if not spec['tqdm']:
             _mp.tqdm = None
         sim = _simulation(P, spec, _survey(P, observed=observed),
                           spec['workers'], **kw)
-        _instrument(sim, delays)
+        _instrument(sim, want)
         res = run_ops(sim, hook)
         obs = _collect(sim, P, spec, names)
         if op == 'gradient':
@@ -567,7 +609,8 @@ def _case(spec, rec, emg3d, _mp, tmpd):
     finally:
         _mp.solve = real_solve
         _mp.tqdm = real_tqdm
-        _STATE.update(table={}, log=None, real=None, t0=None)
+        _STATE.update(table={}, ranks={}, phase=0, workers=1, log=None,
+                      real=None)
         if fh:
             fh.close()
 
